@@ -648,7 +648,7 @@ func (c *compiler) arrayOperator(l interface{}, r interface{}, op string) (inter
 			err = fmt.Errorf("cannot append '%v' (untyped %s constant) as %s value in assignment", r, t, elemType)
 		}
 		if err == nil {
-			return reflect.Append(reflect.ValueOf(l), reflect.ValueOf(r)), nil
+			return reflect.Append(reflect.ValueOf(l), reflect.ValueOf(r)).Interface(), nil
 		}
 	default:
 		err = fmt.Errorf("unkown operator (%s) on %T and %T ", op, l, r)
